@@ -25,6 +25,15 @@ def correspondence(ctx):
             cases.append(f'cmp|S {a}|{cp}')
             for b in ext:
                 cases.append(f'cmp|R {a} {b}|{cp}')
+    # entries that SPAN the windows (start near 0 or 2^31, end near 2^31 or u32::MAX), the full range 0..=u32::MAX included:
+    # lengths that overflow u32 arithmetic (end - start + 1 = 2^32) exist only here
+    M = (1 << 32) - 1
+    starts = [0, 1, 2, (1 << 31) - 1, 1 << 31]
+    ends = [(1 << 31) - 1, 1 << 31, M - 2, M - 1, M]
+    for a in starts:
+        for b in ends:
+            for cp in sorted(set(ext + [max(a - 1, 0), a, a + 1, b - 1, b, min(b + 1, M)])):
+                cases.append(f'cmp|R {a} {b}|{cp}')
     res = run_cases(cases, ctx.work)
 
     def nontrivial(case, impl):
